@@ -561,9 +561,12 @@ def check_linspace(a, b, n, toks):
             return "point %d is NaN" % i
         ex = fa + (fb - fa) * i / (n - 1)
         err = abs(Fraction(v) - ex)
+        # gradual underflow: the quotient, the product i*width and the sum each carry an absolute error of up to half
+        # the smallest subnormal, the first one amplified by i <= n (only matters for end points near 1e-308 and below)
+        floor = Fraction(4 * (n + 2)) * Fraction(2) ** -1074
         if scale > 0:
-            OBS["lin"] = max(OBS["lin"], float(err / Fraction(scale) / Fraction(EPS)))
-        if err > Fraction(LIN_C * EPS) * Fraction(scale):
+            OBS["lin"] = max(OBS["lin"], float(err / (Fraction(scale) * Fraction(EPS) + floor)))
+        if err > Fraction(LIN_C * EPS) * Fraction(scale) + floor:
             return "point %d = %r differs from start + i*(stop-start)/(n-1) = %.17g by %.3g" % (i, v, float(ex), float(err))
     return None
 
@@ -582,15 +585,26 @@ def check_rot(dirn, ax, ang, toks):
     if toks[:2] != ["3", "3"] or len(toks) != 11:
         return "rotation matrix is not 3x3"
     m = [h2f(x) for x in toks[2:]]
-    # the six trigonometric entries are +-cos / +-sin of the angle (2 ulp allowed against this libm), the others 0/1
+    if ang != ang or abs(ang) == math.inf:
+        # sin / cos of NaN or +-inf are NaN: the constant entries must still be 0 / 1, the trigonometric ones NaN
+        pat = rot_pattern(dirn, ax, 0.5, 0.25)
+        for k in range(9):
+            if isinstance(pat[k], int):
+                if m[k] != float(pat[k]):
+                    return "entry %d is %r, expected %r" % (k, m[k], float(pat[k]))
+            elif m[k] == m[k]:
+                return "entry %d is %r for a non-finite angle, expected NaN" % (k, m[k])
+        return None
+    # the six trigonometric entries are +-cos / +-sin of the angle (4 ulp of the value allowed against this libm, at
+    # every magnitude: sin x = x for tiny x, exact argument reduction for huge x), the others 0/1
     pat = rot_pattern(dirn, ax, math.cos(ang), math.sin(ang))
     for k in range(9):
         e = float(pat[k])
-        if isinstance(pat[k], int):
+        if isinstance(pat[k], int) or e == 0.0:
             if m[k] != e:
                 return "entry %d is %r, expected %r" % (k, m[k], e)
-        elif abs(m[k] - e) > 4 * math.ulp(max(abs(e), 2.0 ** -60)):
-            return "entry %d is %r, expected %r" % (k, m[k], e)
+        elif abs(m[k] - e) > 4 * math.ulp(e):
+            return "entry %d is %r, expected %r (sin/cos of the angle %r)" % (k, m[k], e, ang)
     F = [Fraction(x) for x in m]
     R = [F[0:3], F[3:6], F[6:9]]
     worst = Fraction(0)
@@ -1541,6 +1555,87 @@ def gen_extra(rng, lines, cover, scale):
     cover["extra:lines"] = len(lines) - n0
 
 
+def scalar_magnitudes(rng, full):
+    """Real scalars across the whole exponent range: +-2^-k (k = 0..60, 1022, 1074), +-1e-k (k = 1..16), thresholds a
+    fast path might use, each with an ulp neighbour (all neighbours when `full`)."""
+    bases = [2.0 ** -k for k in list(range(0, 61)) + [1022, 1074]] + [10.0 ** -k for k in range(1, 17)]
+    bases += [1e-2, 0.5e-2, 2e-2, 1e-3, 0.1, 0.25, 0.5, 0.7853981633974483, 1e-4, 1e-5, 1e-6, 1e-7, 1.49e-8, 1e-8, 2.1e-8]
+    out = []
+    for b in bases:
+        cand = [b, math.nextafter(b, 0.0), math.nextafter(b, math.inf)]
+        pick = cand if full else [b, rng.choice(cand[1:])]
+        for x in pick:
+            for sg in ((1.0, -1.0) if full else (rng.choice([1.0, -1.0]),)):
+                out.append(sg * x)
+    return out
+
+
+def angle_strata(rng, full):
+    """Angle magnitudes for the rotation constructors."""
+    angs = scalar_magnitudes(rng, full)
+    for k in range(1, 9):                      # multiples and near-multiples of pi/2 (so also of pi and 2 pi)
+        a = k * (math.pi / 2)
+        for x in (a, math.nextafter(a, 0.0), math.nextafter(a, math.inf)):
+            angs.append(x)
+            if full or rng.chance(0.5):
+                angs.append(-x)
+    for k in (2, 3, 10, 20, 30, 52, 53, 54, 64, 100, 200, 500, 1000, 1022, 1023):   # huge angles
+        a = 2.0 ** k
+        angs.extend([a, -a] if full else [a * rng.choice([1.0, -1.0])])
+        angs.append(math.nextafter(a, 0.0))
+    angs.extend([1e22, -1e22, 1.7976931348623157e308, 1e300, 6.283185307179586e15, 0.0, -0.0, float("nan"), float("inf"), float("-inf")])
+    return angs
+
+
+def gen_scalar_strata(rng, lines, cover, full):
+    """Magnitude strata for everything in the property that is parameterised by a real scalar: rotation angles,
+    linspace / arange end points and steps, close_to tolerances (each also judged by the bit-exact tie)."""
+    n0 = len(lines)
+    angs = angle_strata(rng, full)
+    for a in angs:
+        for ax in (("x", "y", "z") if full else (rng.choice(["x", "y", "z"]),)):
+            lines.append("rot cw %s %s" % (ax, f2h(a)))
+            lines.append("rot ccw %s %s" % (ax, f2h(a)))
+    cover["scalar:rot_angles"] = len(angs)
+    cover["scalar:rot_small_angle_window(|a|<1e-2,a!=0)"] = sum(1 for a in angs if 0 < abs(a) < 1e-2)
+    mags = scalar_magnitudes(rng, False)
+    sub = mags if full else [x for i, x in enumerate(mags) if i % 3 == 0]
+    nl = 0
+    for x in sub:
+        n = rng.choice([2, 3, 5, 8, 9, 17, 64])
+        a, b = rng.choice([(0.0, x), (x, -x), (x, 2 * x), (1.0, 1.0 + x), (-x, 0.0)])
+        lines.append("linspace %s %s %d" % (f2h(a), f2h(b), n))
+        step = abs(x)
+        cnt = rng.randint(1, 40)
+        start = rng.choice([0.0, step, -3 * step, 1.0 if step >= 2.0 ** -40 else 0.0])
+        stop = start + cnt * step + rng.choice([0.0, 0.5, -0.5, 1e-10]) * step
+        if step > 0 and abs(stop - start) / step < 100:
+            sg = rng.choice([1.0, -1.0])
+            lines.append("arange %s %s %s" % (f2h(sg * start), f2h(sg * stop), f2h(sg * step)))
+            nl += 1
+    cover["scalar:linspace_arange_magnitudes"] = len(sub) + nl
+    nt = 0
+    for k in (range(0, 53) if full else range(0, 53, 3)):
+        tol = 2.0 ** -k                      # 1 and 1 + 2^-k are exact: rel_diff = 2^-k exactly
+        for tt in ulp_neighbours(tol):
+            lines.append("vclose %s %s %s" % (vec([1.0, 2.0]), vec([1.0 + tol, 2.0]), f2h(tt)))
+            lines.append("vclose %s %s %s" % (vec([-1.0 - tol]), vec([-1.0]), f2h(tt)))
+            nt += 2
+    for k in range(1, 17, 1 if full else 3):
+        tol = 10.0 ** -k
+        y = tol
+        for tt in ulp_neighbours(tol):
+            lines.append("vclose %s %s %s" % (vec([0.0, 5.0]), vec([y, 5.0]), f2h(tt)))      # rel_diff(0, y) = |y|
+            lines.extend([mat_line("load", 1, 2, [y, 5.0]), mat_line("close", 1, 2, [0.0, 5.0], f2h(tt))])
+            nt += 3
+    for tt in (0.0, -0.0, 5e-324, 2.0 ** -1022, float("inf"), float("nan"), -1.0, 1e300):
+        lines.append("vclose %s %s %s" % (vec([1.0, 0.0]), vec([1.0, 0.0]), f2h(tt)))
+        lines.append("vclose %s %s %s" % (vec([1.0]), vec([1.0 + EPS]), f2h(tt)))
+        nt += 2
+    cover["scalar:close_to_tolerances"] = nt
+    cover["scalar:lines"] = len(lines) - n0
+
+
 def corpus():
     one = f2h(1.0)
     h = lambda xs: vec(xs)
@@ -1565,6 +1660,9 @@ def corpus():
         "load 4 2 " + h([1, 2, 0, 3, 0, 0, 0, 5]), "is_up",
         # F39: linspace with a single point is the start point
         "linspace %s %s 1" % (f2h(0.0), f2h(1.0)), "linspace %s %s 1" % (f2h(2.0), f2h(2.0)), "linspace %s %s 2" % (f2h(0.0), f2h(1.0)),
+        # round-7 seed C15p: "small angle fast path" (sin x = x, cos x = 1 - x^2/2 for |x| < 1e-2)
+        "rot cw x " + f2h(0.009), "rot ccw x " + f2h(0.009), "rot cw z " + f2h(-1e-3), "rot ccw z " + f2h(-1e-3),
+        "rot cw y " + f2h(2.0 ** -7), "rot ccw y " + f2h(2.0 ** -7),
         # seeded change C15d: sign test by `a * b < 0` misses pairs whose product underflows to -0.0
         "vclose %s %s %s" % (h([1e-300]), h([-1e-300]), f2h(0.0)),
         "vclose %s %s %s" % (h([1.0, 1e-170, 2.0]), h([1.0, -1e-170, 2.0]), f2h(1e-6)),
@@ -1586,6 +1684,7 @@ def gen(rng, tier):
     gen_sign_strata(rng, lines, cover, 1500 if tier == "quick" else 30000)
     gen_directed(rng, lines, cover, 1 if tier == "quick" else 8)
     gen_extra(rng, lines, cover, 1 if tier == "quick" else 8)
+    gen_scalar_strata(rng, lines, cover, tier != "quick")
     cover["programs"] = nprog
     cover["max_observed_error_in_eps"] = OBS   # filled by the oracle (same dict object): calibration of VDM_C, LIN_C, ROT_C
     return lines, cover
